@@ -27,6 +27,22 @@ claimed.update({
  "C06":dict(cat="proof",text=G+"C06: latest() resumes from the top recorded position, else start-1 (or head-1); ErrDone is returned before any write once position >= stop; every published position lies in [start-1, stop] and every added row in [start, stop], for symbolic start/stop/head/batch.",
    note=A+"jrpc2.Client.Hash/Latest nil-result handling (F9) is part of C07 and not yet under contract.",ref="DESIGN.md §4 C06"),
 })
+claimed.update({
+ "C08":dict(cat="proof",text="head cache (NumHash.update/get/error): a hit is the stored pair, served at most maxreads times in a row, never in an error state; a stale announcement changes nothing (bytes included). Segment cache (cache.get/pruneMaxRead): invariant 'a segment marked done holds the result of a successful fetch' is preserved, the result of get is always a successful fetch, expired segments are removed before lookup.",
+   note="Sequential contracts only: equivalence with an uncached client under CONCURRENT request mixes is not decided. pruneSegments (sort.Slice with a closure) has a TRUSTED contract ('only removes entries'). The getter is an assumed function value (fetched(b) on success, no effect on existing memory). Logs.Add / Block.Tx de-duplication not yet under contract.",ref="DESIGN.md §5 C08"),
+ "C09":dict(cat="proof",text="hasStatic and sizeof are proved equal to the ABI specification (isStatic/headSize) for every type tree (recursion through their own contracts). The decoding itself is covered by a BOUNDED stand-in (labelled bounded, not counted as proved): real Event.ABIType + Result.Scan vs an independent ABI encoder and row-rule specification over 28 field shapes x all 1- and 2-field events x 4 value variants x decoder reuse (6048 cases quick).",
+   note="scan's addressing is NOT proved deductively (bounded stand-in only, depth <= 3, arrays <= 4 elements, T[12] as the k >= 10 representative); constructors establishing wf are not yet under contract.",ref="DESIGN.md §5 C09",tech="contract-based deductive verification for hasStatic/sizeof; bounded exhaustive comparison against a specification encoder for scan (labelled bounded)"),
+ "C11":dict(cat="proof",text="lwc.get returns exactly the Go field each name denotes (22 names, loop-free, all return points); dbtype maps by ABI type (address -> last 20 bytes incl. address arrays, bool, string, bytes, uint/int -> 256-bit value of the word).",
+   note="NOT yet covered: JSON tag -> struct field provenance, receipts/logs/traces copies, processLog's indexed-topic selection (F4, genuine defect not yet repaired: topic index counts selected inputs only), processTx, COPY encoding. uint256 arithmetic assumed.",ref="DESIGN.md §5 C11"),
+ "C12":dict(cat="proof",text="filterResults.add/accept fold (and/or, no filter accepts); Filter.Accept operator matrix for uint64 (eq/ne/gt/lt on the first argument), uint256 (same, via assumed SetFromDecimal/Cmp), strings (eq/ne first argument, contains/!contains membership); processLog starts every row with an empty aggregation.",
+   note="Byte-string filters (contains/eq over hex arguments, reference lookups) are covered only structurally (a result is folded in); the pushdown lemma (address/topic restrictions never exclude an accepted log; F13) is NOT yet covered.",ref="DESIGN.md §5 C12"),
+ "C13":dict(cat="proof",text="processLog's gate: a log whose topic count differs from numIndexed+1, or whose first topic differs from the signature hash, leaves the rows unchanged (checked before any decoding, no indexing of an empty topic list). Bounded stand-in (labelled): Event.Signature vs an independent canonicalisation for tuple/array nestings of depth <= 3 and known Keccak hashes.",
+   note="Signature canonicalisation is bounded, not proved; Keccak assumed; numIndexed's count not yet under contract.",ref="DESIGN.md §5 C13",tech="contract-based deductive verification (gate) + bounded comparison for the canonical signature (labelled bounded)"),
+ "C15":dict(cat="proof",text="wstrings.Safe returns nil exactly for strings whose every rune is a letter, digit, '_' or '-' (recursive spec over runes, loop invariant).",
+   note="ONLY Safe is covered so far: that CheckUserInput applies it to every SQL-spliced position (F7: Ref.Table, nested refs, Unique, Index are unchecked) and the sink discovery are NOT yet covered. UTF-8 decoding summarised (ASCII exact).",ref="DESIGN.md §5 C15"),
+ "C19":dict(cat="proof",text="Authn's closure: the protected handler is called (exactly once) iff DisableAuthn, or loopback while loopback authentication is not enforced, or session.Get returns nil; otherwise exactly one 303 redirect to /login and the handler is not called. Login issues a session only after ConstantTimeCompare(supplied, h.password) == 1. isLoopback is false when the address does not split.",
+   note="kr/session, net, subtle are assumed (session.Get == nil iff a cookie minted by this process); route registration in cmd/shovel/main.go (each protected path wrapped in Authn) is not yet checked.",ref="DESIGN.md §5 C19"),
+})
 na_reason={p["id"]:"check not built yet (work in progress; see DESIGN.md §9 build order)" for p in props}
 m={"version":1,
  "setup_cmd":"cd /verif && GOFLAGS=-mod=mod GOPROXY=off GOSUMDB=off GOTOOLCHAIN=local go build -o bin/vc ./cmd/vc && (cd /repo && GOFLAGS=-mod=mod GOPROXY=off GOSUMDB=off GOTOOLCHAIN=local go build -tags verif ./... )",
